@@ -106,6 +106,8 @@ type world struct {
 	dyn   bool
 	via   string // "host": Host header (op.IssuerFromHost); "forwarded": Forwarded header (op.IssuerFromForwardedOrHost)
 	hosts []string
+	// requests served under the other host before the judged one in the "~all" variant ("R" = router@host of the judged request)
+	battery []string
 	// client assertions (private_key_jwt), one per client and clock bucket, signed up front
 	assertions map[string][]string
 	last       int // index of last clock bucket
@@ -525,7 +527,7 @@ func build(t *testing.T, c *engine.Check, thorough bool, pt part) *world {
 	rvBy := []string{"owner", "ownerpost", "foreign", "spoof", "foreignpost", "public", "assert", "claim"}
 	rvHints := []string{"none", "access_token", "refresh_token", "bogus"}
 	exTypes := []string{"access_token", "refresh_token", "id_token"}
-	esForms := []string{"hint", "hint+cid"}
+	esForms := []string{"hint", "hint+cid", "cid-only"}
 	var routerHosts []string // second field of every request operation: router, or router@host
 	for router := range rig.Routers {
 		if !w.dyn {
@@ -535,6 +537,9 @@ func build(t *testing.T, c *engine.Check, thorough bool, pt part) *world {
 		for h := range w.hosts {
 			routerHosts = append(routerHosts, fmt.Sprintf("%d@%d", router, h))
 		}
+	}
+	if thorough && !w.dyn {
+		exTypes = append(exTypes, "jwt") // a type the provider hands to TokenExchangeTokensVerifierStorage (third-party tokens)
 	}
 	if w.dyn { // the host dimension is the subject of these parts; caller / hint / channel spellings are covered by the static parts
 		uiChannels = []string{"hdr", "form"}
@@ -550,7 +555,13 @@ func build(t *testing.T, c *engine.Check, thorough bool, pt part) *world {
 				l := w.ops1[w.fams[tk.fam].name]
 				all = &l
 			}
+			// the per-byte bit flips of the opaque token are not JWTs and differ from each other only in what they
+			// decrypt to: they go through the two named userinfo channels and the two native exchange types only
+			bulk := tk.kind == "at-flip"
 			for _, ch := range uiChannels {
+				if bulk && ch != "hdr" && ch != "form" {
+					continue
+				}
 				*all = append(*all, strings.Join([]string{"ui", R, tk.name, ch}, "|"))
 			}
 			for _, caller := range inCallers {
@@ -579,6 +590,9 @@ func build(t *testing.T, c *engine.Check, thorough bool, pt part) *world {
 					continue // an empty actor_token means "no actor"
 				}
 				for _, tt := range exTypes {
+					if bulk && tt != "access_token" && tt != "refresh_token" {
+						continue
+					}
 					// requested_token_type named explicitly (so that the answer does not hinge on the storage's
 					// default, which refstore only fills in after its own liveness check); thorough adds the implicit form
 					rtts := []string{"rtt-at"}
@@ -603,6 +617,27 @@ func build(t *testing.T, c *engine.Check, thorough bool, pt part) *world {
 			if f.refreshable {
 				w.ops1["!"+f.name] = append(w.ops1["!"+f.name], strings.Join([]string{"rf", R, f.name}, "|"))
 			}
+		}
+	}
+	if w.dyn {
+		w.battery = []string{"ui|R|ja.at|hdr", "ui|R|oa.at|form", "in|R|ja.at|api", "in|R|oa.at|api", "rv|R|g.garbagetxt|owner|none",
+			"ex|R|ja.at|subject|access_token|rtt-at", "ex|R|ja.idt|subject|id_token|rtt-at", "ex|R|oa.rt|actor|refresh_token|rtt-at", "es|R|ja|hint"}
+		variants := []string{"", "~twin"}
+		if thorough {
+			variants = append(variants, "~all")
+		}
+		withVariants := func(ops []string) []string {
+			var out []string
+			for _, o := range ops {
+				for _, v := range variants {
+					out = append(out, o+v)
+				}
+			}
+			return out
+		}
+		w.ops = withVariants(w.ops)
+		for k, v := range w.ops1 {
+			w.ops1[k] = withVariants(v)
 		}
 	}
 	return w
@@ -636,14 +671,11 @@ type S struct {
 	St    *refstore.State
 	Clock int
 	Held  map[string]held // family -> strings issued by its refresh (never mutated in place)
-	// dynamic-issuer parts only. The provider object is part of the system: every transition is executed on
-	// a fresh provider that first re-serves Path (the requests that led to this state), so anything the provider
-	// remembers from earlier requests of the history is in effect when the judged request arrives. The abstract
-	// state keeps what such a memory could be keyed by: the host of the first request served and whether
-	// both hosts were served.
-	Path  []string
-	First int // 1 + host index of the first request of the history, 0 = none yet
-	Both  bool
+	// dynamic-issuer parts only. The provider object is part of the system and may remember things between
+	// requests, so every transition is executed on a fresh provider that first re-serves Path (the requests
+	// that led to this state) and then, depending on the variant of the operation, the same request under the
+	// other host ("~twin") or one request per endpoint and token kind under the other host ("~all").
+	Path []string
 }
 
 // str is the string the actors present for tk in state s.
@@ -698,6 +730,27 @@ func (w *world) gc(st *refstore.State) {
 	st.Seq = w.init.Seq
 }
 
+// sameStore: a and b agree in everything canon looks at.
+func sameStore(a, b *refstore.State) bool {
+	if len(a.Tokens) != len(b.Tokens) || len(a.Refreshes) != len(b.Refreshes) || len(a.AuthReqs) != len(b.AuthReqs) ||
+		len(a.Codes) != len(b.Codes) || len(a.Devices) != len(b.Devices) || a.Seq != b.Seq {
+		return false
+	}
+	for id, t := range a.Tokens {
+		u, ok := b.Tokens[id]
+		if !ok || t.ClientID != u.ClientID || t.Subject != u.Subject || t.Refresh != u.Refresh || !t.Exp.Equal(u.Exp) || !slices.Equal(t.Audience, u.Audience) {
+			return false
+		}
+	}
+	for id, r := range a.Refreshes {
+		u, ok := b.Refreshes[id]
+		if !ok || r.ClientID != u.ClientID || r.Subject != u.Subject || r.Access != u.Access || !r.Exp.Equal(u.Exp) {
+			return false
+		}
+	}
+	return true
+}
+
 func (w *world) canon(s S) string {
 	var b strings.Builder
 	now := w.now(s)
@@ -722,9 +775,6 @@ func (w *world) canon(s S) string {
 	}
 	for _, f := range refstore.SortedKeys(s.Held) {
 		fmt.Fprintf(&b, "|held:%s@%d", f, s.Held[f].Host)
-	}
-	if w.dyn {
-		fmt.Fprintf(&b, "|first%d,%v", s.First, s.Both)
 	}
 	fmt.Fprintf(&b, "|q%d,%d,%d,%d", len(s.St.AuthReqs), len(s.St.Codes), len(s.St.Devices), s.St.Seq)
 	return b.String()
@@ -884,14 +934,54 @@ func (w *world) newStep(t *testing.T) func(int) func(S, string) (S, engine.Resul
 			r := w.newRig() // fresh provider, then the history that led to s, then the judged request
 			cur := S{St: w.init, Clock: 0}
 			for _, o := range s.Path {
-				cur, _ = w.exec(t, r, cur, o)
+				cur, _ = w.primedExec(t, r, cur, o)
 			}
 			if a, b := w.canon(cur), w.canon(s); a != b {
 				return s, engine.Bad("internal", "replay-diverged", "C08/internal/replay-diverged", fmt.Sprintf("path %v: %s vs %s", s.Path, a, b))
 			}
-			return w.exec(t, r, s, opl)
+			return w.primedExec(t, r, s, opl)
 		}
 	}
+}
+
+// otherHost rewrites the router@host field of a request operation to the other host.
+func otherHost(opl string) string {
+	p := strings.Split(opl, "|")
+	if len(p) < 2 || !strings.Contains(p[1], "@") {
+		return opl
+	}
+	rh := []byte(p[1])
+	rh[len(rh)-1] = '0' + '1' - rh[len(rh)-1]
+	p[1] = string(rh)
+	return strings.Join(p, "|")
+}
+
+// primedExec (dynamic-issuer parts): before the judged request the same provider object serves, from the same
+// storage state (every exec starts from its own clone of s.St, so nothing of the priming reaches the store),
+//   variant ""      nothing more,
+//   variant "~twin" the same request addressed to the other host,
+//   variant "~all"  one request per endpoint and token kind addressed to the other host.
+// Whatever the provider keeps from the first request that went down a code path is thereby pinned to the other
+// host's issuer when the judged request arrives.
+func (w *world) primedExec(t *testing.T, r *rig.Rig, s S, opl string) (S, engine.Result) {
+	base, variant := opl, ""
+	if i := strings.IndexByte(opl, '~'); i >= 0 {
+		base, variant = opl[:i], opl[i:]
+	}
+	switch variant {
+	case "~twin":
+		w.exec(t, r, s, otherHost(base))
+	case "~all":
+		p := strings.Split(base, "|")
+		for _, b := range w.battery {
+			w.exec(t, r, s, otherHost(strings.Replace(b, "|R|", "|"+p[1]+"|", 1)))
+		}
+	}
+	post, res := w.exec(t, r, s, base)
+	if variant != "" && len(post.Path) == len(s.Path)+1 {
+		post.Path[len(post.Path)-1] = opl // exec recorded the base operation (in a slice of its own)
+	}
+	return post, res
 }
 
 // exec runs one operation on the provider of r from state s and judges it.
@@ -900,7 +990,6 @@ func (w *world) exec(t *testing.T, r *rig.Rig, s S, opl string) (S, engine.Resul
 	next := func(n S) S { // bookkeeping of the dynamic-issuer parts
 		if w.dyn {
 			n.Path = append(slices.Clone(s.Path), opl)
-			n.First, n.Both = s.First, s.Both
 		}
 		return n
 	}
@@ -953,14 +1042,10 @@ func (w *world) exec(t *testing.T, r *rig.Rig, s S, opl string) (S, engine.Resul
 	w.gc(st)
 	l1 := w.liveness(st, now)
 	undead, changed := compare(l0, l1, eff)
-	post := next(S{St: st, Clock: s.Clock, Held: s.Held})
-	if w.dyn {
-		if post.First == 0 {
-			post.First = host + 1
-		} else if post.First != host+1 {
-			post.Both = true
-		}
+	if sameStore(st, s.St) {
+		st = s.St // most requests change nothing: share the (immutable) pre-state instead of keeping one clone per transition
 	}
+	post := next(S{St: st, Clock: s.Clock, Held: s.Held})
 	if newHeld != nil {
 		post.Held = newHeld
 	}
@@ -1381,6 +1466,9 @@ func (w *world) doExchange(s S, p []string, router, host int, do doFn, resp **ri
 	if tt == "id_token" && group(tk) != "idt" && group(tk) != "forged-idt" {
 		in += "-as-id_token" // a string that is not an id token declared as one: its own verification path
 	}
+	if tt == "jwt" {
+		in += "-as-jwt"
+	}
 	switch exp {
 	case "must-accept":
 		if out != "accepted" && out != "panic" {
@@ -1440,13 +1528,21 @@ func (w *world) doEndSession(s S, p []string, router, host int, do doFn, resp **
 	f := w.famByName(p[2])
 	hintLive := w.now(s).Before(f.idtExp)
 	q := url.Values{"id_token_hint": {f.idt}}
+	noHint := false
 	if len(p) > 3 && p[3] == "hint+cid" {
 		q.Set("client_id", f.client)
+	}
+	if len(p) > 3 && p[3] == "cid-only" { // names the client, identifies no user: nobody's session may end
+		q = url.Values{"client_id": {f.client}}
+		noHint = true
 	}
 	do("GET", "/end_session", q, nil)
 	rp := *resp
 	rule := "logout-valid-hint"
 	switch {
+	case noHint:
+		rule = "logout-no-hint"
+		hintLive = false
 	case w.dyn && f.host != host:
 		rule = "logout-other-issuer-hint" // id token of another issuer: refusing and honouring are both fine
 		hintLive = false
@@ -1473,7 +1569,7 @@ func (w *world) doEndSession(s S, p []string, router, host int, do doFn, resp **
 	if out == "redirect" {
 		if hintLive {
 			eff.mustDead = keysOf
-		} else {
+		} else if !noHint {
 			eff.free = keysOf // expired hint: honouring or ignoring it are both fine
 		}
 	}
@@ -1488,13 +1584,15 @@ func (w *world) doEndSession(s S, p []string, router, host int, do doFn, resp **
 
 func TestCheck(t *testing.T) {
 	c := engine.Start(t, "C08")
-	c.SetRule("E2: breadth-first over (reference-storage clone, clock bucket); from every reachable state every operation of the alphabet {userinfo(s,channel), introspect(s,caller), revoke(s,by,hint), exchange(s,role,type), end_session(family)} x {Provider router, LegacyServer router} x token-string alphabet (genuine, tampered, re-sealed, other-issuer, edited, unissued, garbage, empty) plus the clock jump is executed once on the real handlers inside a synctest bubble; response and storage effect judged by the liveness model; distinct = (oracle rule, observed outcome class)")
+	c.SetRule("E2: breadth-first over (reference-storage clone, clock bucket [, first host served / both hosts served]); from every reachable state every operation of the alphabet {userinfo(s,channel), introspect(s,caller), revoke(s,by,hint), exchange(s,role,declared type), end_session(family,form), refresh(family)} x {Provider router, LegacyServer router} [x {host a, host b} for a provider with a request-derived issuer] x token-string alphabet (genuine access / refresh / id tokens, tampered, re-sealed, other-issuer, wrong key, algorithm-confused, edited, expired-but-signed, unissued, garbage, empty) plus the clock jump is executed once on the real handlers inside a synctest bubble; response and storage effect judged by the liveness model; distinct = (oracle rule, observed outcome class)")
 	c.Assume("refstore implements the documented storage contract (liveness, subject and audience checks; RevokeToken refuses other clients, accepts unknown tokens) and is part of the trusted base",
 		"the resource server 'api' is put into the audience of every access token by editing the stored token after issuance (storage policy), the JWT aud claim is not edited",
-		"strings signed with the provider's own signing key by the harness (other issuer / expired / unissued jti / other subject) stand for a multi-tenant or key-sharing deployment; none of them names a live (issuer, jti, subject, exp) tuple",
+		"strings signed with the provider's own signing key by the harness (other issuer / expired / unissued jti / other subject) stand for a multi-tenant or key-sharing deployment; none of them names a live (issuer, jti, subject, exp) tuple; declared as id_token (which nobody tracks) the unexpired right-issuer ones are left open",
 		"tokens created by a successful exchange are discarded after the step (the actors never present them)",
 		"a panic in a handler is classified 'panic' and is property C09's business; it satisfies must-refuse, not must-serve",
-		"opaque token ciphertexts use the provider's random IVs; verdict classes do not depend on them")
+		"opaque token ciphertexts use the provider's random IVs; verdict classes do not depend on them",
+		"id tokens are tracked by nobody (refstore vouches for every id token the library verified): an unexpired id token must be accepted as exchange subject / actor while its session still has a token in the store, is left open afterwards, and must be refused once expired",
+		"dynamic-issuer parts: the provider object is rebuilt for every transition and re-serves the recorded path to the state before the judged request, so memory inside the provider that stems from earlier requests of the history is in effect; the abstract state carries (host of the first request, both hosts served) as the key such memory could have; opaque strings (opaque access token, refresh token) presented under the other host are left open while live, strings with an iss claim (JWT access token, id token) must not be honoured there")
 	thorough := c.Thorough()
 	if c.ReplayFile != "" { // vcheck replays under the quick tier: the recorded part tells which alphabet the path belongs to
 		var path []string
